@@ -23,7 +23,7 @@ RULE = ("schemas over every field family including nested schemas, config-type f
         "inspect.signature(function) minus its first parameter, nothing is written to stdout (captured at file-"
         "descriptor level and through sys.stdout), schema fingerprint and configuration snapshot unchanged; "
         "non-trivial = >= 3 fields and (>= 1 method or virtual field or nested part); distinct = distinct schema")
-REQUIRED = ("bare:empty", "bare:virtual", "bare:methods", "bare:both", "repeat_generations_compared", "dynamic_config_with_adhoc_field", "stubs_parsed", "attribute_sets_compared", "init_signatures_compared", "method_signatures_compared",
+REQUIRED = ("schemas_with_long_declaration", "input:nested-schema", "input:nested-config", "bare:empty", "bare:virtual", "bare:methods", "bare:both", "repeat_generations_compared", "dynamic_config_with_adhoc_field", "stubs_parsed", "attribute_sets_compared", "init_signatures_compared", "method_signatures_compared",
             "stdout_captures", "side_effect_checks", "input:schema", "input:config", "input:configtype",
             "methods_with_return_annotation", "schemas_with_configtype_field")
 ASSUMPTIONS = ["functions always name their first (configuration) parameter; positional-only parameters are not generated"]
@@ -72,18 +72,29 @@ def generate(rng, ctx):
     bare = rng.choice(["empty", "virtual", "methods", "both"]) if rng.random() < 0.12 else None
     if bare:
         schema["fields"] = []
-    extra = gen.pick_keys(rng, 6, avoid={ch["key"] for ch in schema["fields"]})
+    extra = gen.pick_keys(rng, 8, avoid={ch["key"] for ch in schema["fields"]})
     for _ in range(rng.choice([0, 1, 2]) if not bare else {"empty": 0, "virtual": 2, "methods": 0, "both": 1}[bare]):
         schema["fields"].insert(rng.randrange(len(schema["fields"]) + 1),
                                 {"kind": "field", "key": extra.pop(), "family": "virtual", "params": {"returns": "v", "setter": rng.random() < 0.3}})
     for _ in range(rng.choice([0, 1, 2, 3]) if not bare else {"empty": 0, "virtual": 0, "methods": 2, "both": 1}[bare]):
         schema["fields"].insert(rng.randrange(len(schema["fields"]) + 1), gen_method(rng, extra.pop()))
+    if rng.random() < 0.15 and not bare:
+        # one very long declaration: a long field name, or lists of lists of lists
+        if rng.random() < 0.5:
+            schema["fields"].append({"kind": "field", "key": "a_rather_long_field_name_" * 4 + "x", "family": rng.choice(["int", "str", "challenge"]),
+                                     "params": {}})
+        else:
+            inner = {"kind": "field", "family": rng.choice(["challenge", "ipv4", "secure"]), "params": {}}
+            for _ in range(rng.choice([3, 4, 5])):
+                inner = {"kind": "field", "family": "list", "params": {}, "item": inner}
+            schema["fields"].append(dict(inner, key=extra.pop()))
+        schema["long_declaration"] = True
     if rng.random() < 0.3 and not bare:
         modes = rng.choice([["development", "production"], ["a", "b"], ["test_1", "stage"]])
         schema["fields"].append({"kind": "field", "key": extra.pop(), "family": "appmode",
                                  "params": {"modes": modes, "create_helpers": True}})
     return {"schema": schema, "bare": bare, "name": rng.choice(["AppConfig", "Cfg", "T", "My_Config2"]),
-            "as": rng.choice(["schema", "config", "configtype"])}
+            "as": rng.choice(["schema", "config", "configtype", "nested-schema", "nested-config"]), "pick": rng.randrange(8)}
 
 
 def abbreviate(case):
@@ -141,6 +152,8 @@ def run(case, ctx, res):
     res.count("input:" + case["as"])
     if case.get("bare"):
         res.count("bare:" + case["bare"])
+    if case["schema"].get("long_declaration"):
+        res.count("schemas_with_long_declaration")
     cfg = schema()
     if root.get("dynamic"):
         # fields added on the fly to a dynamic configuration stay with that configuration
@@ -149,7 +162,18 @@ def run(case, ctx, res):
             res.count("dynamic_config_with_adhoc_field")
         except Exception:
             pass
-    if case["as"] == "schema":
+    if case["as"] in ("nested-schema", "nested-config"):
+        # a schema / configuration that is itself a section of another one: the stub is about the section
+        subs = [ch for ch in root["fields"] if ch["kind"] == "schema"]
+        if subs:
+            sub = subs[case.get("pick", 0) % len(subs)]
+            target = getattr(schema, sub["key"]) if case["as"] == "nested-schema" else getattr(cfg, sub["key"])
+            kw = {"class_name": name}
+            root = sub
+            res.count("input:" + case["as"])
+        else:
+            target, kw = schema, {"class_name": name}
+    elif case["as"] == "schema":
         target, kw = schema, {"class_name": name}
     elif case["as"] == "config":
         target, kw = cfg, {"class_name": name}
